@@ -20,6 +20,7 @@ After every step project() reads the state of the real objects in the shape of t
 """
 import functools
 import inspect
+import sys
 import weakref
 from collections import Counter
 
@@ -145,12 +146,17 @@ class _OrderedSet(set):
 
 
 class _YieldingWeakSet(weakref.WeakSet):
-    """cluster.sessions with a DetSched yield point where a logical thread starts iterating it."""
+    """cluster.sessions with a DetSched yield point where a logical thread starts iterating it, and iterated in the
+    order the sessions were created (a WeakSet's order depends on object addresses)."""
+    order = None          # session -> number, set by the harness
 
     def __iter__(self):
         if DetSched.current is not None:
             DetSched.current.yield_point("iter:sessions")
-        return weakref.WeakSet.__iter__(self)
+        items = list(weakref.WeakSet.__iter__(self))
+        if self.order is not None:
+            items.sort(key=self.order)
+        return iter(items)
 
 
 class _DetSession(ccluster.Session):
@@ -177,6 +183,7 @@ class HostsHarness:
         self.known0 = set(consts["Known0"])
         self.sess_ids = sorted(consts["Sessions"])
         self.ignored = set(consts["Ignored"])
+        self.fine = bool(consts.get("FineUp")) and len(self.sess_ids) == 2
         self.world = w = SimWorld()
         self.nodes = {CTL: w.add_node(FakeNode(addr_of(CTL), tokens=["10"]))}
         for h in self.hosts:
@@ -216,6 +223,11 @@ class HostsHarness:
         self.cc._set_new_connection = set_new_connection_with_yield
         # yield points of Cluster.shutdown: where it starts iterating the sessions, where it shuts the executor
         self.cluster.sessions = _YieldingWeakSet(self.cluster.sessions)
+        self.cluster.sessions.order = self._sess_num
+        self.up_threads = []          # parked Cluster.on_up calls: (thread, on_up frame, called by a reconnector)
+        if self.fine:
+            for sess in self.sessions.values():
+                self._wrap_add_or_renew(sess)
         ex_shutdown = self.ex.shutdown
 
         def shutdown_with_yield(*a, **k):
@@ -233,6 +245,20 @@ class HostsHarness:
         self.returned_conns = None    # number of connections ever opened when shutdown() returned
 
     # ------------------------------------------------------------------ helpers
+    def _wrap_add_or_renew(self, sess):
+        """FineUp: a logical thread running Cluster.on_up stops where its loop calls add_or_renew_pool for the second
+        session (the first future is submitted, has its callback and is in `futures`)."""
+        orig = sess.add_or_renew_pool
+
+        def add_or_renew_pool(host, is_host_addition):
+            if self.ds.active is not None:
+                fr = sys._getframe(1)
+                if fr.f_code.co_name == "on_up" and len(fr.f_locals.get("futures", ())) == 1:
+                    self._parking = fr
+                    self.ds.yield_point("on_up:second")
+            return orig(host, is_host_addition)
+        sess.add_or_renew_pool = add_or_renew_pool
+
     def _set_peers(self):
         self.nodes[CTL].peers = [self.nodes[h] for h in sorted(self.peers)]
 
@@ -277,7 +303,11 @@ class HostsHarness:
         key = id(futures)
         g = self.groups.get(key)
         if g is None:
-            used = set(x["n"] for x in self.groups.values() if x["h"] == h and x["kind"] == kind and x["futures"])
+            live = set(id(fr.f_locals["futures"]) for _, fr, _ in self.up_threads)
+            if getattr(self, "_parking", None) is not None:
+                live.add(id(self._parking.f_locals["futures"]))
+            used = set(x["n"] for k, x in self.groups.items()
+                       if x["h"] == h and x["kind"] == kind and (x["futures"] or k in live))
             n = min(i for i in range(64) if i not in used)
             g = self.groups[key] = {"h": h, "kind": kind, "n": n, "futures": futures, "results": results}
         return g
@@ -307,6 +337,15 @@ class HostsHarness:
                         cv = self._freevars(cb)
                         g = self._group_of(h, "add", cv["futures"], cv["futures_results"])
                         kind, n = "add", g["n"]
+                if kind == "upd" and future is not None:
+                    # a driver that attaches the callbacks after on_up's loop: the future already belongs to the group
+                    frames = [fr for _, fr, _ in self.up_threads]
+                    if getattr(self, "_parking", None) is not None:
+                        frames.append(self._parking)
+                    for fr in frames:
+                        if future in fr.f_locals.get("futures", ()):
+                            g = self._group_of(h, "up", fr.f_locals["futures"], fr.f_locals["futures_results"])
+                            kind, n = "up", g["n"]
                 if kind == "upd" and future is not None and future in fv["self"]._initial_connect_futures:
                     kind = "init"
                 return T("AddPool", s=s, h=h, kind=kind, n=n)
@@ -331,6 +370,12 @@ class HostsHarness:
         except Exception as ex:          # a mutated driver may queue things of another shape
             return T("?%s:%s" % (name, type(ex).__name__))
         return T("?" + str(name))
+
+    def _cont_desc(self, frame, rec):
+        loc = frame.f_locals
+        h = num_of(loc["host"].address)
+        g = self._group_of(h, "up", loc["futures"], loc["futures_results"])
+        return T("OnUpCont", h=h, f1=rec, n=g["n"])
 
     def exec_items(self):
         out = []
@@ -366,11 +411,25 @@ class HostsHarness:
                 raise HarnessError("no control connection reconnect is waiting to install its connection")
             self.ds.finish(self.cc_threads.pop(0))
             return
+        if want[0] == "OnUpCont":
+            for i, (th, fr, rec) in enumerate(self.up_threads):
+                if self._cont_desc(fr, rec) == want:
+                    del self.up_threads[i]
+                    self.ds.finish(th)
+                    return
+            raise HarnessError("no parked on_up %s; parked=%s" % (want, [self._cont_desc(f, r) for _, f, r in self.up_threads]))
         for d, t in self.exec_items():
             if d == want:
                 break
         else:
             raise HarnessError("no queued executor task %s; queue=%s" % (want, [d for d, _ in self.exec_items()]))
+        if self.fine and want[0] in ("OnUp", "Recon"):
+            th = self._spawn("UP", self.ex.run, t)
+            self._parking = None
+            lab = self.ds.run_until(th, "on_up:second")
+            if lab != "end":
+                self.up_threads.append((th, self._parking, want[0] == "Recon"))
+            return
         if want[0] == "CtlReconnect":
             th = self._spawn("CC", self.ex.run, t)
             lab = self.ds.run_until(th, "set_new_connection")
@@ -504,6 +563,10 @@ class HostsHarness:
         ex = Counter(d for d, _ in self.exec_items())
         for _ in self.cc_threads:
             ex[T("CtlSet")] += 1
+        open_sets = set()
+        for th, fr, rec in self.up_threads:
+            ex[self._cont_desc(fr, rec)] += 1
+            open_sets.add(id(fr.f_locals["futures"]))
         sc = Counter(d for d, _ in self.sched_items())
         # groups of futures awaited by on_up / on_add (discovered while describing the queued tasks)
         fut_sess = {}
@@ -513,12 +576,15 @@ class HostsHarness:
         grp = {}
         for key in list(self.groups):
             g = self.groups[key]
-            if not g["futures"]:
+            if not g["futures"] and key not in open_sets:
                 del self.groups[key]
                 continue
-            left = frozenset(fut_sess.get(f, 0) for f in g["futures"])
+            left = frozenset(fut_sess.get(f, 0) for f in g["futures"] if not f.done())
             ok = all((r is True) for r in g["results"])
-            grp[(g["h"], g["kind"], g["n"])] = {"left": left, "ok": ok}
+            for f in g["futures"]:            # done, callback not attached yet (a driver that attaches after the loop)
+                if f.done() and not f.cancelled():
+                    ok = ok and f.exception() is None and f.result() is True
+            grp[(g["h"], g["kind"], g["n"])] = {"left": left, "ok": ok, "open": key in open_sets}
         c = self.cc._connection
         ctl = "closed" if c is None else ("broken" if (c.is_closed or c.is_defunct) else "open")
         flags = (bool(self.cluster.is_shutdown), bool(self.sch.is_shutdown), bool(self.cc._is_shutdown),
@@ -536,7 +602,7 @@ class HostsHarness:
     # ------------------------------------------------------------------ after shutdown() returned
     def returned(self):
         th = self.shut_thread and self.ds.threads[self.shut_thread]
-        return bool(th and th.done and not self.exec_items() and not self.cc_threads)
+        return bool(th and th.done and not self.exec_items() and not self.cc_threads and not self.up_threads)
 
     def after_return_probe(self):
         """Everything that could still run once shutdown() has returned is given the chance to: scheduler entries,
@@ -590,7 +656,7 @@ class HostsHarness:
                 self._shut_step(())
         except Exception:
             pass
-        for th in self.cc_threads:
+        for th in self.cc_threads + [x[0] for x in self.up_threads]:
             try:
                 self.ds.finish(th)
             except Exception:
@@ -632,10 +698,10 @@ def spec_view(state, consts):
     grp = {}
     if not isinstance(st["grp"], tuple):
         for k, g in st["grp"].items():
-            grp[tuple(k)] = {"left": frozenset(g["left"]), "ok": g["ok"]}
+            grp[tuple(k)] = {"left": frozenset(g["left"]), "ok": g["ok"], "open": g["open"]}
     nopen = (1 if st["ctl"] == "open" else 0) + (1 if st["ctlPend"] else 0) + st["leaked"]
     nopen += sum(1 for s in sess for h in pools[s] if pools[s][h] == "open")
-    nopen += sum(n for t, n in ex.items() if t[0] == "PoolShut" and t[4])
+    nopen += sum(n for t, n in ex.items() if t[0] in ("PoolShut", "OnUpCont") and t[4])
     return {
         "known": _hf(st["known"], hosts),
         "removed": _hf(st["removed"], hosts), "up": _hf(st["up"], hosts), "handling": _hf(st["handling"], hosts),
@@ -729,7 +795,7 @@ def to_post(p, consts):
         "up": [p["up"][h] for h in hosts], "handling": [p["handling"][h] for h in hosts],
         "recon": [p["recon"][h] for h in hosts],
         "pools": [[p["pools"][s][h] for h in allh] for s in sess],
-        "grp": [{"h": k[0], "kind": k[1], "n": k[2], "left": sorted(g["left"]), "ok": g["ok"]}
+        "grp": [{"h": k[0], "kind": k[1], "n": k[2], "left": sorted(g["left"]), "ok": g["ok"], "open": g["open"]}
                 for k, g in sorted(p["grp"].items())],
         "exec": _bag_arr(p["exec"]), "sched": _bag_arr(p["sched"]),
         "lbpLive": sorted(p["lbpLive"]), "phase": PHASES.get(tuple(p["flags"]), -1),
@@ -850,6 +916,7 @@ def run_script(consts, acts):
                 return events, p, {}, "%s at %s: %s" % (type(ex).__name__, act["name"], ex)
             events.append(event_of(act, to_post(p, consts)))
         bad = h.after_return_probe() if h.returned() else {}
+        p = dict(p, _listener_log=list(h.listener.log), _lbp_log=list(h.lbp.log))
         return events, p, bad, None
     finally:
         h.close()
